@@ -274,7 +274,10 @@ def case_sig(case):
             'shape': ('Lx<Ly' if size[0] < size[1] else 'Lx>Ly' if size[0] > size[1] else 'square')}
 
 
-def menu_cases(max_L, max_n):
+MENU_MAX = 12       # largest entry of the size menu in main.js
+
+
+def menu_cases(max_L, max_n, max_n_edge=700, thorough=False):
     l2c = label_to_class()
     served = []
     for dim in (2, 3):
@@ -289,15 +292,21 @@ def menu_cases(max_L, max_n):
         cases.append({'kind': 'decoder-names', 'label': label, 'cls': cls})
         for deformation in [None] + list(defs):
             for rotated in (False, True):
-                for L in range(1, max_L + 1):
+                for L in list(range(1, max_L + 1)) + [MENU_MAX]:
                     for coprime in (False, True):
                         size = sizes_for(cls, L, coprime)
                         if not domain.size_ok(cls, size):
                             continue
                         if cls == 'Color666ToricCode' and size[0] != size[1]:
                             continue       # C01 known finding
-                        if domain.n_estimate(cls, size) > max_n:
+                        if L == MENU_MAX and not thorough and \
+                                cls not in ('Toric2DCode', 'Planar2DCode', 'RotatedPlanar2DCode',
+                                            'Color666PlanarCode'):
+                            continue        # quick: menu edge on the cheap classes only
+                        if domain.n_estimate(cls, size) > (max_n_edge if L == MENU_MAX else max_n):
                             continue
+                        if L == MENU_MAX and (rotated or (deformation and coprime)) and not thorough:
+                            continue        # quick: one picture at the menu edge
                         cases.append({'kind': 'code-data', 'label': label, 'cls': cls,
                                       'size': list(size), 'deformation': deformation,
                                       'rotated': rotated, 'coprime': coprime})
@@ -310,11 +319,13 @@ def request_cases(draw):
     gui, _ = client()
     label = draw(st.sampled_from(sorted(l2c)))
     cls = l2c[label]
-    L = draw(st.integers(1, 3 if domain.DIM[cls] == 3 else 4))
+    edge_ok = cls in ('Toric2DCode', 'Planar2DCode', 'RotatedPlanar2DCode')
+    L = draw(st.one_of(st.integers(1, 3 if domain.DIM[cls] == 3 else 4),
+                       st.just(MENU_MAX) if edge_ok else st.integers(1, 3)))
     coprime = draw(st.booleans())
     size = sizes_for(cls, L, coprime)
     if (not domain.size_ok(cls, size) or (cls == 'Color666ToricCode' and size[0] != size[1])
-            or domain.n_estimate(cls, size) > 120):
+            or domain.n_estimate(cls, size) > (330 if L == MENU_MAX else 120)):
         size = decoding_smallest(cls)
     names = list(domain.get_class(cls).deformation_names)
     kind = draw(st.sampled_from(['decode', 'decode', 'new-errors']))
@@ -332,6 +343,8 @@ def request_cases(draw):
         n = domain.n_estimate(cls, size)
         if dec == 'MBP' and n > 20:
             dec = 'BP-OSD'
+        if dec == 'Union-Find' and n > 120:
+            dec = 'Matching'        # pure-Python union-find takes seconds there
         if dec == 'RotatedSweepMatch' and cls == 'RotatedToric3DCode' and size[0] % 2 != size[1] % 2:
             dec = 'BP-OSD'         # C05 known finding
         case.update(decoder=dec, max_bp_iter=draw(st.sampled_from([2, 20])) if dec != 'MBP' else 2,
@@ -348,7 +361,8 @@ def decoding_smallest(cls):
 
 def run(ctx):
     quick = ctx.tier == 'quick'
-    cases = menu_cases(4 if quick else 6, 400 if quick else 1500)
+    cases = menu_cases(4 if quick else 6, 400 if quick else 1500,
+                       max_n_edge=700 if quick else 6000, thorough=not quick)
     ctx.exhaustive = True
     ctx.note('menu_cases', len(cases))
     ctx.note('excluded_from_domain',
